@@ -150,6 +150,14 @@ def run(ctx):
                 row[-1] = row[0] * 2
         cmds.append("svd " + mtok(A)); descr.append(("svd", A))
         cmds.append("pinv " + mtok(A)); descr.append(("pinv", A))
+        if rng.random() < 0.6:
+            # wide matrices (fewer rows than columns): the singular values are not sorted, the non-zero ones may sit at
+            # positions beyond the number of rows (seed C15-c summed over min(M,N) terms only)
+            r2 = rng.randint(1, 4); c2 = rng.randint(r2 + 1, 6)
+            A2 = rand_mat(rng, r2, c2, rng.random() < 0.5)
+            if rng.random() < 0.3 and r2 >= 2:
+                A2[-1] = [2 * x for x in A2[0]]
+            cmds.append("pinv " + mtok(A2)); descr.append(("pinv", A2))
     rc, out, err = vlib.sh([exe], inp="\n".join(cmds) + "\n", timeout=600)
     lines = out.split("\n")
     if rc != 0 or len(lines) < len(cmds):
@@ -237,5 +245,5 @@ def run(ctx):
             ctx.violation({"kind": "K:memrep", "command": cmd, "result": l}, "copy/assign/reset/move experiment (%s): %s" % (cmd, l.strip()))
     ctx.obligation(True, "storage and ownership experiments")
     return ctx.finish(rule="binary operators: all dimension pairs 0..3 x 0..3 with entries in {-1,0,1,2} (quick: 35% sample, thorough: all) + random reals up to 8x8; "
-                           "matrix-vector flavours incl. non-conforming; inverse of permuted diagonally dominant matrices; SymMat/CovMat solves of B B' + I; SVD / pinv of full and "
+                           "matrix-vector flavours incl. non-conforming; inverse of permuted diagonally dominant matrices; SymMat/CovMat solves of B B' + I; SVD / pinv of full and (pinv also of wide matrices, rows < columns) "
                            "rank-deficient matrices; packed positions; 256 copy/assign/reset/move size combinations; non-trivial = all dimensions positive; distinct by content")
